@@ -210,9 +210,10 @@ package storage
 //@ func (*cacheSession).Commit
 //@   implements Session
 //@   modifies mapof(c.parent.store), mapof(c.parent.done), c.parent.keys, kidx(c.parent)
-//@   invariant loop1: wfSC(c.parent) && wfCS(c) && c.parent == old(c.parent) && 0 <= $i && $i <= len(c.keys)
-//@   invariant loop1: forall k string :: (has(c.store, k) && kidx(c)[k] < $i) ==> (has(c.parent.store, k) && c.parent.store[k] == c.store[k])
-//@   invariant loop1: forall k string :: !(has(c.store, k) && kidx(c)[k] < $i) ==> (has(c.parent.store, k) == old(has(c.parent.store, k)) && c.parent.store[k] == old(c.parent.store[k]))
+//@   invariant loop1: wfSC(c.parent) && c.parent == old(c.parent) && 0 <= $i && $i <= len(c.keys)                    // C09.commit-exact
+//@   invariant loop1: c.store == old(c.store) && c.done == old(c.done) && c.keys == old(c.keys) && mapdom(c.store) == old(mapdom(c.store)) && mapval(c.store) == old(mapval(c.store)) && elems(c.keys) == old(elems(c.keys)) && kidx(c) == old(kidx(c))   // C09.commit-exact
+//@   invariant loop1: forall k string :: (has(c.store, k) && kidx(c)[k] < $i) ==> (has(c.parent.store, k) && c.parent.store[k] == c.store[k])   // C09.commit-exact
+//@   invariant loop1: forall k string :: !(has(c.store, k) && kidx(c)[k] < $i) ==> (has(c.parent.store, k) == old(has(c.parent.store, k)) && c.parent.store[k] == old(c.parent.store[k]))   // C09.commit-exact
 //@   ensures wfSC(c.parent)                                                                           // C09.wf
 
 // ---------------------------------------------------------------- iteration over a layer (trusted iterator contracts)
